@@ -16,7 +16,7 @@ Not decided: encodings of secrets inside opaque third-party values, side channel
 """
 from . import core, flow, names, summary
 from .framework import where, short, api_name
-from .common import AUTH, CLIENT, ceremony, find_aggs
+from .common import AUTH, CLIENT, ceremony, find_aggs, u2f_body
 from .c02 import has, is_call, find, sub, closure_ret
 
 SECRET_TYPES = ["passkey_types::passkey::Passkey", "passkey_types::passkey::StoredHmacSecret", "passkey_types::passkey::CredentialExtensions", "passkey_authenticator::CoseKeyPair"]
@@ -38,6 +38,16 @@ def secret_hits(p, t, acc=None, ctx=""):
     if not isinstance(t, tuple) or not t:
         return acc
     k = t[0]
+    if k == "gamma" and len(t) == 3:
+        # a selection: the branch values flow on; a test that only asks whether a fallible step succeeded
+        # (is the key decodable: Some/Ok or not) does not carry the value it guards
+        if flow.presence_test(t[1], ("in", "0")) is None:
+            secret_hits(p, t[1], acc, ctx)
+        for l, v in t[2]:
+            secret_hits(p, v, acc, ctx)
+        return acc
+    if k in ("errpayload",):
+        return acc
     if k == "closure" and len(t) == 3:
         # a closure capturing a secret is fine if what it *returns* is declassified: look at its return value
         # with the captures substituted (nested closures are followed the same way)
@@ -164,7 +174,7 @@ def run(chk):
     for nm in ("register", "authenticate"):
         funcs.append(("Client::" + nm, ceremony(p, nm, adt=CLIENT)))
         if u2f_trait:
-            funcs.append(("U2fApi::" + nm, p.async_body(p.method(AUTH, nm, trait=u2f_trait[0]["path"]))))
+            funcs.append(("U2fApi::" + nm, u2f_body(p, nm)))
     for nm in ("make_extensions", "get_extensions", "make_prf", "get_prf"):
         funcs.append(("Authenticator::" + nm, p.method(AUTH, nm)))
     for nm in ("registration_extension_outputs", "auth_extension_outputs"):
@@ -246,7 +256,7 @@ def run(chk):
             a = flow.simplify_term(T.operand(acd[0][1]["args"][2], acd[0][0], "t"))
             k = flow.simplify_term(T.operand(pk[0][2]["ops"][pk[0][2]["fields"].index("key")], pk[0][0], pk[0][1]))
             chk.ob("R3 routing", "R3|make_credential", a[0] == "field" and a[2] == "public" and k[0] == "field" and k[2] == "private" and a[1] == k[1], where(mc, acd[0][0]), "attested <- .%s ; stored <- .%s of one key pair" % (a[2] if a[0] == "field" else "?", k[2] if k[0] == "field" else "?"))
-    ur = p.async_body(p.method(AUTH, "register", trait=u2f_trait[0]["path"])) if u2f_trait else None
+    ur = u2f_body(p, "register") if u2f_trait else None
     if chk.require("R3 routing", "R3|U2fApi::register", ur, AUTH, "U2F register not found"):
         chk.touched(ur)
         T = flow.Terms(p, ur)
